@@ -356,8 +356,24 @@ def cmd_sweep():
     return out
 
 
+def note_edit_triples(tier):
+    """every sequence of three commands that write or edit the last note (note, echo, tie, slur, reverse
+    rest, grace note, rest, loop brackets, loop point) after an echo setting with and without volume:
+    the commands that reach back into the event list (`add_tie`, `reverse_rest`, `add_echo`) index it"""
+    toks = ["c", "\\", "^", "&", "R8", "~d", "r", "[", "]2", "L"] + (["/", "^2.", "c16"] if tier == "thorough" else [])
+    out = []
+    for head in ("\\=1,0 o4 l4", "\\=1,3 o4 l4", "\\=2,0 o4 l8 Q4"):
+        for a in toks:
+            for b in toks:
+                for c in toks:
+                    out.append(("A %s c %s %s %s" % (head, a, b, c), "note-edit-triple"))
+    return out
+
+
 def corpus_cases(rng, tier):
     okw = wav_ok().hex()
+    for text, tag in note_edit_triples(tier):
+        yield Case("total m %s" % hx(text.encode("latin-1")), ("corpus", tag), "note-edit")
     for text, tag in CORPUS + cmd_sweep():
         b = text.encode("latin-1")
         side = " a.wav=h:" + okw if "a.wav" in text else ""
